@@ -45,6 +45,7 @@ class Harness:
         self.global_extra.append(f"_Bool g_park_token[{nthreads_hint + 1}];")
         self.global_extra.append("_Bool g_all_notifiers_done;")
         self.global_extra.append("usize g_progress;")
+        self.global_extra.append("usize g_parks;")
         self.params = []
 
     # -- storage ---------------------------------------------------------------------------------
